@@ -46,6 +46,14 @@ assertion (`source.(uint32)`), a named type its reflect fallback (`reflect.Value
 result. `GoType` therefore has no constructor for them: the harness uses a fixed family of declared named types (one per
 scalar kind and width, plus composites) and writes them `named T`, which the driver reads as `T`.
 
+Second use.  `decode` is a function of (type, document): a decoder keeps nothing from one decode to the next and
+every result is a fresh value.  The Go decoders are compiled once per target type on the process-global
+`types.Decoder` and reused; the harness (harness/c16/second.go) decodes every document again into a fresh target –
+at once and after three later cases – and requires equal results that share no memory, with the first result
+unchanged.  This includes the decoder `pkg/spec` registers for a `spec.Spec` INTERFACE target (op `ai`), which the
+model reads as a `spec.Unstructured` target.  (Observation on the unchanged tree: a Binary decoded into an `any` is
+the document's own byte array, `Binary.Interface` does not copy; two results alias there and the check excepts it.)
+
 Types outside this universe (channels, funcs, custom marshalers other than the three above, `io.Reader`
 buffers, error values, non-string map keys, `*time.Time` – which takes the RFC 3339 text form) are not modelled.
 Conversions the round trip never uses are modelled only by their *guard* (which source kinds a leaf takes):
